@@ -3,7 +3,9 @@ package props
 import (
 	"bytes"
 	"context"
+	"errors"
 	"fmt"
+	"io"
 	"net/http"
 	"net/http/httptest"
 	"strings"
@@ -66,6 +68,9 @@ type envCfg struct {
 	Algo  string // "" | tagA | tagB | rle
 	// ExplicitIdentity: with no Algo, name the identity encoding in the header instead of omitting it
 	ExplicitIdentity bool `json:",omitempty"`
+	// KeepReceiving: the handler is a bidi handler that goes on calling Receive after a
+	// message-too-large error (the reader skips such a message and stays aligned)
+	KeepReceiving bool `json:",omitempty"`
 }
 
 func (c envCfg) coqProto() string {
@@ -156,7 +161,37 @@ func serveStream(cfg envCfg, body *h.ChunkBody) (obs []obsItem, rec *httptest.Re
 			obs = append(obs, obsItem{Kind: "eof"})
 			return connect.NewResponse(&h.Raw{B: []byte{byte(len(obs))}}), nil
 		}, cfg.handlerOpts()...)
+	if cfg.KeepReceiving {
+		handler = connect.NewBidiStreamHandler("/verif.Svc/Stream",
+			func(_ context.Context, s *connect.BidiStream[h.Raw, h.Raw]) error {
+				calls++
+				failedBefore := false
+				for k := 0; k < 24; k++ {
+					m, err := s.Receive()
+					switch {
+					case err == nil:
+						obs = append(obs, obsItem{Kind: "msg", B: append([]byte(nil), m.B...)})
+						failedBefore = false
+					case errors.Is(err, io.EOF):
+						obs = append(obs, obsItem{Kind: "eof"})
+						return nil
+					default:
+						// a message beyond the limit (or one that does not decode) has been consumed
+						// whole: try the next one; give up at the second failure in a row
+						obs = append(obs, obsItem{Kind: "err", Code: connect.CodeOf(err)})
+						if failedBefore {
+							return err
+						}
+						failedBefore = true
+					}
+				}
+				return nil
+			}, cfg.handlerOpts()...)
+	}
 	req := httptest.NewRequest(http.MethodPost, "/verif.Svc/Stream", nil)
+	if cfg.KeepReceiving {
+		req.ProtoMajor, req.ProtoMinor, req.Proto = 2, 0, "HTTP/2.0"
+	}
 	req.Body = body
 	req.Header.Set("Content-Type", cfg.contentType(false))
 	if cfg.Algo != "" {
